@@ -1066,24 +1066,26 @@ loop:
 // zshNumRange peeks at the bytes after '<' to check for a zsh numeric
 // range glob pattern like <->, <5->, <-10>, or <5-10>.
 func (p *Parser) zshNumRange() bool {
-	// Peeking a handful of bytes here should be enough.
-	// TODO: This should loop for slow readers, e.g. those providing one byte at
-	// a time. Use a loop and test it with [testing/iotest.OneByteReader].
-	if int(p.bsp) >= len(p.bs) {
-		p.fill()
+	// Read more bytes as needed, so that readers providing few bytes
+	// at a time do not change the result.
+	gotDash := false
+	for i := 0; ; i++ {
+		for int(p.bsp)+i >= len(p.bs) {
+			// Give up if the pattern does not fit in the buffer.
+			if i >= len(p.readBuf) || p.fill() == 0 {
+				return false
+			}
+		}
+		switch b := p.bs[int(p.bsp)+i]; {
+		case b >= '0' && b <= '9':
+		case b == '-' && !gotDash:
+			gotDash = true
+		case b == '>' && gotDash:
+			return true
+		default:
+			return false
+		}
 	}
-	rest := p.bs[p.bsp:]
-	for len(rest) > 0 && rest[0] >= '0' && rest[0] <= '9' {
-		rest = rest[1:]
-	}
-	if len(rest) == 0 || rest[0] != '-' {
-		return false
-	}
-	rest = rest[1:]
-	for len(rest) > 0 && rest[0] >= '0' && rest[0] <= '9' {
-		rest = rest[1:]
-	}
-	return len(rest) > 0 && rest[0] == '>'
 }
 
 func (p *Parser) advanceLitNone(r rune) {
